@@ -41,7 +41,9 @@ RULE = ("(a) random dataset stacks: a harness root (tensor / PIL / (image, mask)
         "dataset; the parts of a concat / interleaved stack are separate datasets or different wrapper stacks over ONE shared root / shared "
         "lower layers (shared part first or last); registered collators are plain KDSingleCollators or ONE composite (KDComposeCollator over them / "
         "KDSingleCollatorWrapper) used directly as collate function; in a third of the cases the hook has already been run once by hand in "
-        "the parent process before the workers are created; multi-view config lists mix KDTransform views, identity views and plain-callable views "
+        "the parent process before the workers are created; in half of the cases 1 or 3 samples are fetched in the parent before the workers "
+        "are created; concat members carry stochastic collators on their roots (collate function built from root.collators); a fraction of "
+        "the stacks is handed to the workers without ModeWrapper on top (harness adapter serving getitem_x, stack.worker_init_fn); multi-view config lists mix KDTransform views, identity views and plain-callable views "
         "(function / callable object) in every order (plain first / middle / last); transforms are random well-typed compositions (kdv/h07_recipes.py) to depth 3 of compose / bare list / random-apply / "
         "patchwise / scheduled over every stochastic recipe; x W in {1,2,3,4} workers of one base seed + one worker of another base seed "
         "(same rank) + one duplicate worker, K in 3..6 samples. (b) probe stacks of the same shapes on a real forked DataLoader "
@@ -75,7 +77,10 @@ MONITORS = ["sim_workers_observed", "live_generators_judged", "state_pairs_compa
             "loader_repeats_compared", "mv_plain_view_before_kd_view", "concat_parts_sharing_a_dataset",
             "interleaved_parts_sharing_a_dataset", "single_worker_sim_cases", "single_worker_loader_cases",
             "hook_already_run_in_parent_sim_cases", "hook_already_run_in_parent_loader_cases",
-            "composite_collator_registered_sim_cases", "composite_collator_registered_loader_cases"]
+            "composite_collator_registered_sim_cases", "composite_collator_registered_loader_cases",
+            "samples_fetched_in_parent_sim_cases", "samples_fetched_in_parent_loader_cases", "samples_fetched_in_parent_mix_wrapper_cases",
+            "no_mode_wrapper_sim_cases", "no_mode_wrapper_loader_cases", "no_mode_wrapper_with_collators_cases",
+            "concat_member_root_collators_sim_cases", "concat_member_root_collators_loader_cases"]
 
 STEP_LIMIT = 3_000_000
 WITNESSES_PER_KEY = 4
@@ -96,12 +101,14 @@ def gen_cases(run):
     every = max(1, n_sim // max(1, n_loader))
     made_loader = 0
     for i in range(n_sim):
-        top = G.gen_sim_stack(rng)
+        want = {3: "mix", 13: "bare", 23: "concat_collators"}.get(i % 30)     # every family in every run
+        top = G.gen_sim_stack(rng, want)
         W = rng.choice([1, 1, 2, 3, 4])     # a single worker is re-created per epoch with a new seed as well
         b1 = rng.randrange(2 ** 40)
         yield {"kind": "sim", "top": top, "build_seed": rng.randrange(2 ** 31), "W": W, "base": [b1, b1 + 1000 + rng.randrange(2 ** 40)],
                "alt_rank": rng.randrange(W), "dup_rank": rng.randrange(W), "K": rng.choice([3, 4, 4, 6]), "B": rng.choice([1, 2, 3]),
-               "idx_seed": rng.randrange(10 ** 6), "parent_hook": rng.randrange(W) if rng.random() < 0.35 else None}
+               "idx_seed": rng.randrange(10 ** 6), "parent_hook": rng.randrange(W) if rng.random() < 0.35 else None,
+               "parent_samples": rng.choice([1, 3]) if want == "mix" else rng.choice([None, None, 1, 3])}
         if i % every == every // 2 and made_loader < n_loader:
             made_loader += 1
             yield _loader_case(rng, made_loader)
@@ -112,10 +119,10 @@ def gen_cases(run):
 
 def _loader_case(rng, k=0):
     s1 = rng.randrange(2 ** 40)
-    return {"kind": "loader", "top": G.gen_probe_stack(rng), "build_seed": rng.randrange(2 ** 31), "W": [1, 2, 3, 1, 2, 4][k % 6],      # every worker count in every run, a single worker included
+    return {"kind": "loader", "top": G.gen_probe_stack(rng, {2: "bare", 5: "concat_collators"}.get(k % 8)), "build_seed": rng.randrange(2 ** 31), "W": [1, 2, 3, 1, 2, 4][k % 6],      # every worker count in every run, a single worker included
             
             "B": rng.choice([1, 2, 2, 3]), "torch_seed": [s1, s1 + 1 + rng.randrange(2 ** 40)], "base": [rng.randrange(2 ** 40)],
-            "parent_hook": [None, 0, None][k % 3]}
+            "parent_hook": [None, 0, None][k % 3], "parent_samples": [None, 1, 3, None][k % 4], "idx_seed": rng.randrange(10 ** 6)}
 
 
 # ------------------------------------------------------------------------------------------------ helpers
@@ -184,6 +191,23 @@ def _draw_samples(col, ds, coll, idxs, B, interleaved):
     return canon, batches
 
 
+def _parent_samples(col, ds, spec):
+    """history: k samples are fetched in the parent process (e.g. to look at shapes) before the workers are created"""
+    k = spec.get("parent_samples")
+    if not k:
+        return True
+    r = pyrandom.Random(spec.get("idx_seed", 0) + 1)
+    _seed_globals(spec["build_seed"] + 2)
+    n = len(ds)
+    for _ in range(k):
+        i = r.randrange(n)
+        ok, _v = call_real(col, lambda: ds[i], crash_key="sample-crash", what=f"stack[{i}] fetched in the parent process")
+        if not ok:
+            return False
+    S.PROBE_LOG.clear()
+    return True
+
+
 def observe_sim(spec, shift, stats):
     """build the stack, run the simulated workers -> (findings, live place count). No reporting."""
     top, W = spec["top"], spec["W"]
@@ -205,6 +229,8 @@ def observe_sim(spec, shift, stats):
                           what=f"worker_init_fn({spec['parent_hook']}) called in the parent process")
         if not ok:
             return col.found, 0
+    if not _parent_samples(col, built.dataset, spec):
+        return col.found, 0
     pre = {e.path: e for e in S.census(built.dataset)}
     pre_state = {p: e.state for p, e in pre.items()}
     pre_raw = {p: set(e.raw()) for p, e in pre.items()}
@@ -344,7 +370,7 @@ def _blame_output(spec):
             yield from layers(ch)
         if "child" in node:
             yield from layers(node["child"])
-        if node["k"] not in ("mode", "interleaved"):
+        if node["k"] not in ("mode", "interleaved", "bare"):
             yield node
     from kappadata.wrappers import ModeWrapper
     for node in layers(spec["top"]):
@@ -431,6 +457,8 @@ def observe_loader(run, spec, shift):
                           what=f"worker_init_fn({spec['parent_hook']}) called in the parent process")
         if not ok:
             return col.found
+    if not _parent_samples(col, built.dataset, spec):
+        return col.found
     parent = _parent_values(built.dataset)
     runs = []
     for ts in (seeds[0], seeds[0], seeds[1]):
@@ -552,7 +580,17 @@ def _stack_cover(run, spec):
         run.count(f"single_worker_{spec['kind']}_cases")
     if spec.get("parent_hook") is not None:
         run.count(f"hook_already_run_in_parent_{spec['kind']}_cases")
-    run.cover("history", spec["kind"], "parent-hook" if spec.get("parent_hook") is not None else "fresh")
+    run.cover("history", spec["kind"], "parent-hook" if spec.get("parent_hook") is not None else "fresh", spec.get("parent_samples") or 0)
+    if spec.get("parent_samples"):
+        run.count(f"samples_fetched_in_parent_{spec['kind']}_cases")
+        if any(n["k"] == "mix" for n in S.stack_nodes(top)):
+            run.count("samples_fetched_in_parent_mix_wrapper_cases")
+    if top["k"] == "bare":
+        run.count(f"no_mode_wrapper_{spec['kind']}_cases")
+        if any(n["k"] == "root" and n.get("collators") for n in S.stack_nodes(top)):
+            run.count("no_mode_wrapper_with_collators_cases")
+    if any(n.get("collate_roots") for n in S.stack_nodes(top)):
+        run.count(f"concat_member_root_collators_{spec['kind']}_cases")
     for n in S.stack_nodes(top):
         if n["k"] == "root" and n.get("collators") and n["collators"][0]["c"] in ("compose", "wrapper"):
             run.count(f"composite_collator_registered_{spec['kind']}_cases")
@@ -583,7 +621,9 @@ def brief_stack(node):
     if k == "common":
         return f"{node['cls']}({inner})"
     if k == "mode":
-        return f"Mode('{node['mode']}'; {inner})"
+        return f"Mode('{node['mode']}'{', collate from member roots' if node.get('collate_roots') else ''}; {inner})"
+    if k == "bare":
+        return f"NoModeWrapper({inner})"
     return f"{k}({inner})"
 
 
